@@ -71,7 +71,12 @@ def oracle_legal(req, reply):
     spec, named = req["gen"], None
     ref = (gens.denote([(p, c) for p, c in spec["_ast"]]), spec["_bob_ref"], spec["_single_ref"]) if "_ast" in spec \
         else gens.special_reference(spec["type"], spec["stage"]) if spec.get("stage") else None
-    if ref is not None and ref[0]:
+    if spec.get("type") == "dixon" and spec.get("stage") == 6:
+        named = []
+        _, ok = gens.ref_dixon_rows(6, reply["start_row"], req["ops"], trace=named)
+        if not ok:
+            named = None
+    elif ref is not None and ref[0]:
         named = []
         _, ok = gens.ref_call_rows(spec["stage"], ref[0], spec.get("start_index") or 0, reply["start_row"], ref[1], ref[2],
                                    req["ops"], trace=named)
